@@ -7,7 +7,17 @@ claim("C18", "other",
       "table extraction + SSA gate/dominance + forward must-dataflow on len(params) + canonical term recovery",
       "DESIGN.md 5/C18")
 
-for p in ["C01","C03","C04","C05","C06","C07","C08","C09","C10","C11","C12","C13","C14","C15","C16","C17","C19","C20"]:
+claim("C07", "proof",
+      "A sound effect/ownership analysis over the whole evaluation closure (Eval, EvalBool, TryEval, TryEvalBool, Dump, DumpTable and every in-package function they can reach through static or VTA-resolved dynamic calls) proves that no instruction writes memory that outlives the call except by sending on Expr.EventChan, that no package variable read there is ever written after initialisation, and that the closure contains no goroutine/select/receive/sync use. Every execution of that code is covered by construction; what is trusted is listed in the evidence (type checker, go/ssa, VTA, the frozen library summaries, well-behaved callbacks).",
+      "interprocedural field/type-based ownership and effect analysis on SSA (label propagation to a fixpoint) + whole-package writer census + instruction census",
+      "DESIGN.md 5/C07")
+
+claim("C08", "proof",
+      "The same effect engine, with the label 'reachable from Compile's *Config argument', proves that nothing reachable from Compile writes the caller's config or any package variable and that no container of the config is retained by the program, the parser or a closure; structural rules prove copyConfig copies every Config field element-wise into fresh containers (so CopyConfig/ExtendConf share nothing) and that the closure has no source of nondeterminism (map iteration only with order-independent bodies, no random/time/os callee, stable sort only).",
+      "interprocedural taint/ownership analysis on SSA + SSA pattern rules on copyConfig/NewConfig + nondeterminism-source census",
+      "DESIGN.md 5/C08")
+
+for p in ["C01","C03","C04","C05","C06","C09","C10","C11","C12","C13","C14","C15","C16","C17","C19","C20"]:
     na(p, PENDING)
 
 na("C02", "semantic equivalence of two programs over all inputs and 16 optimisation subsets is a run-time relation on values computed by folding and re-derived jump tables; no structural clause is a necessary condition on its own (its structural parts are decided under C08, C10, C16); an honest not-applicable for static analysis")
